@@ -29,6 +29,8 @@ class Policy:
     answer_connection_close = True
     publish_fate = None          # fn(broker, chan_id, msg) -> 'ack'|'nack'|'return-ack'|'close-channel'|'drop'|None
     get_split = None             # None or int: max body piece for basic.get / deliveries (<= frame_max-8)
+    get_truncate = None          # None or int: send only that many body frames of a basic.get reply (rest withheld forever)
+    get_then_close = False       # after the (possibly truncated) get reply, close the channel (404)
 
 
 class Msg:
@@ -311,8 +313,23 @@ class RefBroker:
             return self.send(ch, spec.Basic.GetEmpty())
         props, body, ex, rk = q.popleft()
         c['delivery_tag'] += 1
-        self.send_content(ch, spec.Basic.GetOk(delivery_tag=c['delivery_tag'], redelivered=False, exchange=ex,
-                                               routing_key=rk, message_count=len(q)), props, body)
+        c.setdefault('got', []).append((c['delivery_tag'], props, body))
+        p = self.policy
+        if p.get_truncate is None:
+            self.send_content(ch, spec.Basic.GetOk(delivery_tag=c['delivery_tag'], redelivered=False, exchange=ex,
+                                                   routing_key=rk, message_count=len(q)), props, body)
+        else:
+            fm = (self.tune_ok.frame_max if self.tune_ok else 0) or 131072
+            piece = p.get_split or (fm - 8)
+            self.send(ch, spec.Basic.GetOk(delivery_tag=c['delivery_tag'], redelivered=False, exchange=ex,
+                                           routing_key=rk, message_count=len(q)))
+            if p.get_truncate >= 0:
+                self.send(ch, pheader.ContentHeader(body_size=len(body), properties=props))
+                pieces = [body[i:i + piece] for i in range(0, len(body), piece)]
+                for b in pieces[:p.get_truncate]:
+                    self.send(ch, pbody.ContentBody(b))
+        if p.get_then_close:
+            self.close_channel(ch, 404, 'NOT_FOUND - forced by policy')
 
     def h_Basic_Publish(self, ch, c, fr):
         c['pending'] = Msg(fr.exchange, fr.routing_key, fr.mandatory, None, None)
